@@ -158,7 +158,10 @@ func (s *objectStore) flush(db *DB) (err error) {
 }
 
 type DB struct {
-	l       sync.RWMutex
+	l sync.RWMutex
+	// sl serializes schema loading and asynchronous writes routines start,
+	// which happen while db lock is only held for reading
+	sl      sync.Mutex
 	ctx     context.Context
 	cancel  context.CancelFunc
 	root    string
@@ -300,6 +303,12 @@ func (db *DB) safeCountPendingAsyncW(s *Schema, async *Async) (n int, current bo
 
 func (db *DB) schema(of Object) (s *Schema, err error) {
 	var ok bool
+
+	// callers may only hold db lock for reading, so concurrent calls
+	// must not load the same schema (and modify db.schemas) nor start
+	// asynchronous writes routine at the same time
+	db.sl.Lock()
+	defer db.sl.Unlock()
 
 	if s, ok = db.schemas[stype(of)]; ok {
 		db.startAsyncWritesRoutine(s)
@@ -892,10 +901,17 @@ func (db *DB) Drop() (err error) {
 // DeleteAll deletes all Objects of the same type and commit changes
 func (db *DB) DeleteAll(of Object) (err error) {
 	var it *iterator
-	if it, err = db.Iterator(of); err != nil {
+
+	// the objects to delete must be listed and deleted under the same
+	// lock otherwise objects inserted in between by concurrent calls
+	// would survive a call deleting objects updated after them
+	db.Lock()
+	defer db.Unlock()
+
+	if it, err = db.iterator(of); err != nil {
 		return
 	}
-	return db.DeleteObjects(it)
+	return db.deleteObjects(it)
 }
 
 // DeleteObjects deletes Objects from an Iterator and commit changes.
@@ -904,6 +920,12 @@ func (db *DB) DeleteObjects(from *iterator) (err error) {
 	db.Lock()
 	defer db.Unlock()
 
+	return db.deleteObjects(from)
+}
+
+// deleteObjects deletes Objects from an Iterator and commit
+// changes, db lock must be held by caller
+func (db *DB) deleteObjects(from *iterator) (err error) {
 	var o Object
 
 	defer db.commit(from.object())
